@@ -73,7 +73,7 @@ def main():
         broken = {p: v for p, v in r.items() if v['rc'] == 2}
         print('%-14s %s%s' % (name, 'caught by ' + ', '.join('%s(%s)' % (p, v['hits'][0].split(' [')[0] if v['hits'] else '?') for p, v in sorted(caught.items())) if caught else 'NOT CAUGHT',
                               ('  exit2: ' + ','.join(sorted(broken))) if broken else ''))
-    json.dump(out, open('/tmp/matrix.json', 'w'), indent=1)
+    json.dump(out, open(os.environ.get('MATRIX_OUT', '/tmp/matrix.json'), 'w'), indent=1)
 
 
 if __name__ == '__main__':
